@@ -1,7 +1,8 @@
 (* C03 — Count-Min estimate never under-counts and is bounded by the stream total.
    Statements only; every proof is `exact <lemma>` into Proofs/. *)
 From GX.Model Require Import Base CMS.
-From GX.Proofs Require Import ListLemmas CMSProofs CMSApi.
+From GX.Model Require Import Redis RedisCMS.
+From GX.Proofs Require Import ListLemmas CMSProofs CMSApi RedisCMSRefine.
 
 (* In-memory variant, for every position function with in-range results (hence every hash),
    every rows >= 1, columns >= 1 (the constructor rejects 0), every update history whose total
@@ -27,6 +28,37 @@ Theorem C03_mem_empty : forall s0 x, cms_new rows cols = Ok s0 -> cms_count cpos
 Proof. exact (api_empty cpos rows cols cpos_len cpos_lt). Qed.
 End Mem.
 
+(* Redis-backed variant, through the refinement of Proofs/RedisCMSRefine.v: from a new sketch
+   (any base key), after any update history whose total stays below 2^53 (where Lua's double
+   arithmetic is exact), the store represents exactly the in-memory matrix, Count (the Lua minimum
+   script over LINDEX replies) returns exactly the in-memory estimate, hence never under-counts
+   and never exceeds the stream total. Every script run succeeds. *)
+Section Redis.
+Variable cpos : N -> N -> bytes -> list N.
+Variable rows cols : N.
+Hypothesis cpos_len : forall x, length (cpos rows cols x) = N.to_nat rows.
+Hypothesis cpos_lt : forall x p, In p (cpos rows cols x) -> p < cols.
+
+Theorem C03_redis_bounds : forall s key meta h0 s1 m0 hist x,
+  rcms_new s rows cols key meta = (Ok h0, s1) -> cms_new rows cols = Ok m0 -> total hist < B53 ->
+  exists s' h', rrun cpos s1 h0 hist = (Ok h', s') /\
+    rcms_count cpos s' h' x = Ok (cms_count cpos (run_hist cpos m0 hist) x) /\
+    true_count hist x <= cms_count cpos (run_hist cpos m0 hist) x <= total hist.
+Proof. exact (redis_count_bounds_new cpos rows cols cpos_len cpos_lt). Qed.
+End Redis.
+
+(* REFUTED beyond 2^53 for the Redis variant (recorded finding): the cells are Lua doubles, so
+   Update(x, 2^53); Update(x, 1) leaves 2^53 in the cell and Count(x) under-counts by one *)
+Theorem C03_redis_refuted_beyond_2p53 :
+  let cpos := fun (_ _ : N) (_ : bytes) => [0] in
+  exists h0 s0 h1 s1 h2 s2,
+    rcms_new [] 1 1 [107] [109] = (Ok h0, s0) /\
+    rcms_update cpos s0 h0 [97] (2 ^ 53) = (Ok h1, s1) /\
+    rcms_update cpos s1 h1 [97] 1 = (Ok h2, s2) /\
+    rcms_count cpos s2 h2 [97] = Ok (2 ^ 53) /\
+    true_count [([97], 2 ^ 53); ([97], 1)] [97] = 2 ^ 53 + 1.
+Proof. cbv zeta. do 6 eexists. repeat split; vm_compute; reflexivity. Qed.
+
 (* the position formula of the code satisfies the hypotheses, for every metro hash *)
 Theorem C03_code_positions_wf : forall metro rows cols x,
   length (cpos_metro metro rows cols x) = N.to_nat rows /\
@@ -51,3 +83,5 @@ Print Assumptions C03_mem_exact_single.
 Print Assumptions C03_mem_empty.
 Print Assumptions C03_code_positions_wf.
 Print Assumptions C03_ctor_rejects_zero.
+Print Assumptions C03_redis_bounds.
+Print Assumptions C03_redis_refuted_beyond_2p53.
